@@ -27,6 +27,9 @@ def _alarm(signum, frame):
     raise Timeout()
 
 
+_PRIVATE_NAME = __import__("re").compile(r"(has no attribute|cannot import name) '_[A-Za-z]")
+
+
 def run_cases(mod, cases, driver, want_model=True):
     """returns (records, oracle_fails, mismatches, stats)"""
     records, oracle_fails, mismatches = [], [], []
@@ -38,6 +41,13 @@ def run_cases(mod, cases, driver, want_model=True):
             raise
         except Exception as e:  # an implementation that raises where the module did not expect it
             out = {"exc": type(e).__name__, "msg": str(e)[:200]}
+            if isinstance(e, (AttributeError, ImportError)) and _PRIVATE_NAME.search(str(e)):
+                # the HARNESS reached for a private name of the library that is gone (renamed / removed helper): that breaks the
+                # correspondence, it is not an input on which the property fails
+                out["private_name_missing"] = True
+                mismatches.append({"case": case, "msg": f"the harness could not reach a private name of the library: {e}"[:300]})
+                impl_outs.append(out)
+                continue
         impl_outs.append(out)
         try:
             res = mod.oracle(case, out)
@@ -51,6 +61,8 @@ def run_cases(mod, cases, driver, want_model=True):
     if want_model and driver is not None and driver.available():
         reqs, owners = [], []
         for i, (case, out) in enumerate(zip(cases, impl_outs)):
+            if isinstance(out, dict) and out.get("private_name_missing"):
+                continue
             try:
                 rs = mod.requests(case, out)
             except Exception as e:
@@ -161,93 +173,105 @@ def body(prop, args, seed, t0):
 
     driver = common.Driver(prop)
 
-    # ---- 2b. the translator and its Python prelude are themselves compared with CPython / the Python functions
+    # (a CRASH of a self-check – e.g. a translated function no longer exists in the source – is not a verdict by itself: with broken
+    #  obligations the run goes on to the failing-input search; with every obligation discharged it is a fault of the machinery)
     tie = {}
-    from harness import tables as _tables
-    if prop in _tables._specs() and driver.available():
-        from harness import prelude_check, translated_check
-        n1, bad1 = prelude_check.run(seed)
-        n2, bad2, untranslatable = translated_check.run(seed, only=prop)
-        tie = {"prelude_vs_cpython": n1, "translated_vs_python_function": n2,
-               "translated_functions": [f"{fn.__module__.split('quantum.')[-1]}.{fn.__name__} -> Translated.{nm}"
-                                        for fn, nm, *_rest in _tables._specs()[prop]],
-               "untranslatable_now": untranslatable}
-        if bad1 or bad2:
-            for b in (bad1 + bad2)[:10]:
-                print("  translator/prelude disagreement:", b)
-            print(f"INTERNAL-ERROR property={prop} (the Python->Lean translation misrenders the code; no verdict)")
-            return 2
-
-    # --- T3: translated definitions over OPAQUE objects (rules / operations / circuits; methods, constructors and operators are
-    # parameters) are instantiated with stand-ins on both sides and compared with the Python functions they came from
-    # (harness/translated_check_opaque.py); a disagreement is a fault of the translator, never a verdict about /repo
-    if prop in _tables._specs() and driver.available():
-        from harness import translated_check_opaque as _tco
-        if any(p == prop for p, _s in _tco._specs_t3()) and (build_ok or common.lake_build(["oqdriver"])[0]):
-            n3, bad3, untr3, dropped3 = _tco.run(seed, only=prop)
-            tie["translated_opaque_vs_python_function"] = n3
-            tie["translated_opaque_not_compared"] = dropped3
-            tie["untranslatable_now"] = list(tie.get("untranslatable_now", [])) + untr3
-            if bad3:
-                for b in bad3[:10]:
-                    print("  translator disagreement (opaque objects):", b)
+    try:
+        # ---- 2b. the translator and its Python prelude are themselves compared with CPython / the Python functions
+        from harness import tables as _tables
+        if prop in _tables._specs() and driver.available():
+            from harness import prelude_check, translated_check
+            n1, bad1 = prelude_check.run(seed)
+            n2, bad2, untranslatable = translated_check.run(seed, only=prop)
+            tie = {"prelude_vs_cpython": n1, "translated_vs_python_function": n2,
+                   "translated_functions": [f"{fn.__module__.split('quantum.')[-1]}.{fn.__name__} -> Translated.{nm}"
+                                            for fn, nm, *_rest in _tables._specs()[prop]],
+                   "untranslatable_now": untranslatable}
+            if bad1 or bad2:
+                for b in (bad1 + bad2)[:10]:
+                    print("  translator/prelude disagreement:", b)
                 print(f"INTERNAL-ERROR property={prop} (the Python->Lean translation misrenders the code; no verdict)")
                 return 2
-    # --- T3 end
 
-    # --- T5: the METHOD translator (harness/translate_state.py): the translated runner classes of C14 are run against the real
-    # classes on seeded call histories (harness/runners_check.py); a disagreement is a fault of the machinery
-    if prop == "C14" and driver.available():
-        from harness import runners_check
-        n3, bad3, untr3, note3 = runners_check.run(seed)
-        tie = dict(tie, translated_runner_classes_vs_python=n3, untranslatable_methods_now=untr3,
-                   translated_classes=["api.circuit_runner.BaseCircuitRunner -> Runners.Base.*",
-                                       "runners.trackers.MeasurementTrackingBackend -> Runners.Tracker.*",
-                                       "api.wavefunction_simulator.BaseWavefunctionSimulator -> Runners.Sim.*"])
-        if note3:
-            tie["translated_runner_classes_note"] = note3
-        if bad3:
-            for b in bad3[:10]:
-                print("  method-translator disagreement:", b)
-            print(f"INTERNAL-ERROR property={prop} (the Python->Lean translation of the runner classes misrenders the code; no verdict)")
-            return 2
-    # --- T5 end
+        # --- T3: translated definitions over OPAQUE objects (rules / operations / circuits; methods, constructors and operators are
+        # parameters) are instantiated with stand-ins on both sides and compared with the Python functions they came from
+        # (harness/translated_check_opaque.py); a disagreement is a fault of the translator, never a verdict about /repo
+        if prop in _tables._specs() and driver.available():
+            from harness import translated_check_opaque as _tco
+            if any(p == prop for p, _s in _tco._specs_t3()) and (build_ok or common.lake_build(["oqdriver"])[0]):
+                n3, bad3, untr3, dropped3 = _tco.run(seed, only=prop)
+                tie["translated_opaque_vs_python_function"] = n3
+                tie["translated_opaque_not_compared"] = dropped3
+                tie["untranslatable_now"] = list(tie.get("untranslatable_now", [])) + untr3
+                if bad3:
+                    for b in bad3[:10]:
+                        print("  translator disagreement (opaque objects):", b)
+                    print(f"INTERNAL-ERROR property={prop} (the Python->Lean translation misrenders the code; no verdict)")
+                    return 2
+        # --- T3 end
 
-    # --- T1: the gate-CLASS translator (harness/translate_cls.py -> OQ/Generated/TranslatedGates.lean, tied to the models of
-    #     C07 and C06 by Props/C0x_TranslatedGates.lean) is compared with the real Python classes on every run of C06 / C07
-    if prop in ("C06", "C07") and driver.available():
-        from harness import gates_check
-        n3, bad3, notes3 = gates_check.run(seed)
-        tie.update({"translated_gate_classes_vs_python_classes": n3, "gate_classes_untranslatable_now": notes3,
-                    "translated_gate_classes": "circuits/_gates.py: MatrixFactoryGate, ControlledGate, Dagger, Exponential, Power "
-                                               "-> OQ.Generated.TranslatedGates (harness/translate_cls.py)"})
-        if bad3:
-            for b in bad3[:10]:
-                print("  class-translator disagreement:", b)
-            print(f"INTERNAL-ERROR property={prop} (the Python->Lean translation of the gate classes misrenders the code; no verdict)")
-            return 2
-    # --- T1 end
+        # --- T5: the METHOD translator (harness/translate_state.py): the translated runner classes of C14 are run against the real
+        # classes on seeded call histories (harness/runners_check.py); a disagreement is a fault of the machinery
+        if prop == "C14" and driver.available():
+            from harness import runners_check
+            n3, bad3, untr3, note3 = runners_check.run(seed)
+            tie = dict(tie, translated_runner_classes_vs_python=n3, untranslatable_methods_now=untr3,
+                       translated_classes=["api.circuit_runner.BaseCircuitRunner -> Runners.Base.*",
+                                           "runners.trackers.MeasurementTrackingBackend -> Runners.Tracker.*",
+                                           "api.wavefunction_simulator.BaseWavefunctionSimulator -> Runners.Sim.*"])
+            if note3:
+                tie["translated_runner_classes_note"] = note3
+            if bad3:
+                for b in bad3[:10]:
+                    print("  method-translator disagreement:", b)
+                print(f"INTERNAL-ERROR property={prop} (the Python->Lean translation of the runner classes misrenders the code; no verdict)")
+                return 2
+        # --- T5 end
 
-    # --- T6: the translated definitions of harness/tables_t6.py (sort keys, `translate_expression` family, `reduction`: C19; the
-    # `dicke_state` loop and the `zero_state` guard: C12) are run in the driver (tag "TRT6") and compared with the Python functions
-    # they came from (stand-in symbols / dialects on both sides); the prelude is compared with CPython for C19 as well
-    from harness import translated_check_t6 as _t6
-    if prop in _t6.PROP_OF.values() and driver.available() and (build_ok or common.lake_build(["oqdriver"])[0]):
-        # (a driver that does not build now would be a stale binary of an earlier run: nothing is compared then)
-        bad1 = []
-        if "prelude_vs_cpython" not in tie:
-            from harness import prelude_check as _pc
-            tie["prelude_vs_cpython"], bad1 = _pc.run(seed)
-        n6, bad6, untr6, listed6 = _t6.run(seed, only=prop)
-        tie["translated_t6_vs_python_function"] = n6
-        tie["translated_functions"] = list(tie.get("translated_functions", [])) + listed6
-        tie["untranslatable_now"] = list(tie.get("untranslatable_now", [])) + untr6
-        if bad1 or bad6:
-            for b in (bad1 + bad6)[:10]:
-                print("  translator/prelude disagreement:", b)
-            print(f"INTERNAL-ERROR property={prop} (the Python->Lean translation misrenders the code; no verdict)")
+        # --- T1: the gate-CLASS translator (harness/translate_cls.py -> OQ/Generated/TranslatedGates.lean, tied to the models of
+        #     C07 and C06 by Props/C0x_TranslatedGates.lean) is compared with the real Python classes on every run of C06 / C07
+        if prop in ("C06", "C07") and driver.available():
+            from harness import gates_check
+            n3, bad3, notes3 = gates_check.run(seed)
+            tie.update({"translated_gate_classes_vs_python_classes": n3, "gate_classes_untranslatable_now": notes3,
+                        "translated_gate_classes": "circuits/_gates.py: MatrixFactoryGate, ControlledGate, Dagger, Exponential, Power "
+                                                   "-> OQ.Generated.TranslatedGates (harness/translate_cls.py)"})
+            if bad3:
+                for b in bad3[:10]:
+                    print("  class-translator disagreement:", b)
+                print(f"INTERNAL-ERROR property={prop} (the Python->Lean translation of the gate classes misrenders the code; no verdict)")
+                return 2
+        # --- T1 end
+
+        # --- T6: the translated definitions of harness/tables_t6.py (sort keys, `translate_expression` family, `reduction`: C19; the
+        # `dicke_state` loop and the `zero_state` guard: C12) are run in the driver (tag "TRT6") and compared with the Python functions
+        # they came from (stand-in symbols / dialects on both sides); the prelude is compared with CPython for C19 as well
+        from harness import translated_check_t6 as _t6
+        if prop in _t6.PROP_OF.values() and driver.available() and (build_ok or common.lake_build(["oqdriver"])[0]):
+            # (a driver that does not build now would be a stale binary of an earlier run: nothing is compared then)
+            bad1 = []
+            if "prelude_vs_cpython" not in tie:
+                from harness import prelude_check as _pc
+                tie["prelude_vs_cpython"], bad1 = _pc.run(seed)
+            n6, bad6, untr6, listed6 = _t6.run(seed, only=prop)
+            tie["translated_t6_vs_python_function"] = n6
+            tie["translated_functions"] = list(tie.get("translated_functions", [])) + listed6
+            tie["untranslatable_now"] = list(tie.get("untranslatable_now", [])) + untr6
+            if bad1 or bad6:
+                for b in (bad1 + bad6)[:10]:
+                    print("  translator/prelude disagreement:", b)
+                print(f"INTERNAL-ERROR property={prop} (the Python->Lean translation misrenders the code; no verdict)")
+                return 2
+        # --- T6 end
+
+    except Exception as e:  # noqa: BLE001
+        import traceback
+        tie = dict(tie, self_check_crashed=f"{type(e).__name__}: {e}"[:300])
+        if not broken:
+            traceback.print_exc()
+            print(f"INTERNAL-ERROR property={prop} (a self-check of the translation machinery crashed although every obligation checks; no verdict)")
             return 2
-    # --- T6 end
+        print(f"  note: a translator self-check could not run ({type(e).__name__}: {str(e)[:160]}); {len(broken)} obligation(s) are broken, going on")
 
     # ---- 3. correspondence + oracle
     if args.replay:
